@@ -78,7 +78,7 @@ func (c *Config) UnmarshalBinary(data []byte) error {
 		ECDSA:   c.Group.NewScalar(),
 		ElGamal: c.Group.NewScalar(),
 	}
-	if err := cbor.Unmarshal(data, &cm); err != nil {
+	if err := cbor.Unmarshal(data, cm); err != nil {
 		return fmt.Errorf("config: %w", err)
 	}
 
